@@ -757,7 +757,7 @@ class CSSSerializer:
         if rule.wellformed and self.prefs.keepUnknownAtRules:
             out = Out(self)
             # (characters which came as unicode escapes are escaped again)
-            out.append('@' + helper.ident(rule.atkeyword[1:]))
+            out.append('@' + helper.ident(self._atkeyword(rule)[1:]))
 
             stacks = []
             for item in rule.seq:
